@@ -687,6 +687,20 @@ class Sectionable(BaseObject):
             for sec in self._sections:
                 obj.append(sec.clone(keep_id=keep_id))
 
+        # A merged Section of the copy is merged with the copy of the linked Section,
+        # not with a Section of the original tree. If the linked Section is not
+        # part of the copy, the copied Section is not merged any longer.
+        originals, copies = [self], [obj]
+        if children:
+            originals.extend(self.itersections(recursive=True))
+            copies.extend(obj.itersections(recursive=True))
+        twins = dict(zip([id(sec) for sec in originals], copies))
+        for sec, twin in zip(originals, copies):
+            if getattr(sec, "_merged", None) is not None:
+                twin._merged = twins.get(id(sec._merged))
+                if twin._merged is None:
+                    twin._merged_attrs = ()
+
         return obj
 
     @property
